@@ -25,7 +25,9 @@ RULE = ("moves = data-point Gibbs scan, prune-regraft, random-subtree particle G
         "move proposal / N / threshold); for EVERY start tree the exact transition row of the real sample_tree (enumerating "
         "generator) is compared with the Lean model's row; direct oracle: pi K = pi on the assembled matrix (data-point and "
         "prune-regraft: every configuration; subtree move: pinned instances only, whose bias is the known finding F7). "
-        "Non-trivial: start tree with >= 2 data points; distinct by digest.")
+        "Plus prune-regraft single rows on 7-10 clones: row vs the model and vs the Gibbs conditional recomputed independently over "
+        "every attachment point.  Start trees are named bottom-up (SMC placements) and in preorder (relabel_nodes, as the run loop "
+        "leaves them).  Non-trivial: start tree with >= 2 data points; distinct by digest.")
 TRUSTED = ["numpy Generator draws replaced by exact enumeration"]
 ASSUMPTIONS = ["exact arithmetic in the theorems"]
 MAX_LEAVES = 1_500_000
